@@ -27,6 +27,7 @@ import (
 	"github.com/AdguardTeam/AdGuardHome/verifsim/env"
 	"github.com/AdguardTeam/AdGuardHome/verifsim/kernel"
 	"github.com/AdguardTeam/AdGuardHome/verifsim/model"
+	"github.com/AdguardTeam/AdGuardHome/verifsim/sched"
 	"github.com/AdguardTeam/urlfilter/rules"
 	"github.com/miekg/dns"
 	"pgregory.net/rapid"
@@ -86,6 +87,17 @@ type Op struct {
 	// issued (or before the next query / clock advance), so the requests of
 	// several admin calls reach the module back to back.
 	Hold bool `json:"hold,omitempty"`
+	// list_fault: what takes the place of the list's file in the data
+	// directory ("loop": a symbolic link to itself, "dir": a directory,
+	// "dangling": a symbolic link to nowhere).
+	How string `json:"how,omitempty"`
+	// par (scenarios with DelayedLoop only): Sub[0] is a rule-changing admin
+	// operation, Sub[1:] are queries; they and the body of the updates loop run
+	// as concurrent tasks under the cooperative scheduler seeded with Seed,
+	// which preempts with probability Pct percent at lock boundaries.
+	Seed uint64 `json:"seed,omitempty"`
+	Pct  int    `json:"pct,omitempty"`
+	Sub  []Op   `json:"sub,omitempty"`
 }
 
 // Scenario is one case.
@@ -235,6 +247,15 @@ func genRuleOp(t *rapid.T, nextID *int64) (op Op) {
 	return op
 }
 
+func genQuery(t *rapid.T) Op {
+	return Op{Kind: "query",
+		Name:  flipCase(t, rapid.SampledFrom(queryNames).Draw(t, "qname")),
+		Qtype: rapid.SampledFrom(qtypes).Draw(t, "qtype"),
+		Addr:  rapid.SampledFrom(addrs).Draw(t, "addr"),
+		Proto: rapid.SampledFrom(protos).Draw(t, "proto"),
+	}
+}
+
 // Gen draws a scenario.
 func Gen(t *rapid.T, tier string) any {
 	sc := &Scenario{}
@@ -251,6 +272,22 @@ func Gen(t *rapid.T, tier string) any {
 	}
 	if rapid.IntRange(0, 1).Draw(t, "has_allow") == 1 {
 		sc.Allow = append(sc.Allow, List{ID: 20, Enabled: rapid.IntRange(0, 4).Draw(t, "al_on") != 0, Rules: genRules(t, true, 3)})
+	}
+	// The lists of the start are what an earlier run left in the configuration:
+	// their ids follow the order in which they were once added, block and allow
+	// lists interleaved in any way.
+	if nl := len(sc.Block) + len(sc.Allow); nl > 1 {
+		pos := make([]int, nl)
+		for i := range pos {
+			pos[i] = i
+		}
+		pos = rapid.Permutation(pos).Draw(t, "id_order")
+		for i := range sc.Block {
+			sc.Block[i].ID = int64(10 + pos[i])
+		}
+		for i := range sc.Allow {
+			sc.Allow[i].ID = int64(10 + pos[len(sc.Block)+i])
+		}
 	}
 	if rapid.IntRange(0, 1).Draw(t, "has_services") == 1 {
 		sc.Services = rapid.SliceOfNDistinct(rapid.SampledFrom(services), 1, 2, rapid.ID[string]).Draw(t, "services")
@@ -273,20 +310,16 @@ func Gen(t *rapid.T, tier string) any {
 		maxOps = 70
 	}
 	nextID := int64(30)
+	faulty := false
 	for i, n := 0, rapid.IntRange(4, maxOps).Draw(t, "n_ops"); i < n; i++ {
 		var op Op
 		switch k := rapid.IntRange(0, 99).Draw(t, "kind"); {
-		case k < 58:
-			op = Op{Kind: "query",
-				Name:  flipCase(t, rapid.SampledFrom(queryNames).Draw(t, "qname")),
-				Qtype: rapid.SampledFrom(qtypes).Draw(t, "qtype"),
-				Addr:  rapid.SampledFrom(addrs).Draw(t, "addr"),
-				Proto: rapid.SampledFrom(protos).Draw(t, "proto"),
-			}
+		case k < 50 || (k >= 97 && !sc.DelayedLoop):
+			op = genQuery(t)
 			if rapid.IntRange(0, 9).Draw(t, "fault") == 0 {
 				op.Fault = rapid.SampledFrom([]string{"upstream_error", "upstream_timeout", "upstream_servfail", "upstream_slow"}).Draw(t, "fault_kind")
 			}
-		case k < 62:
+		case k < 54:
 			// A burst: several rule-changing admin calls back to back, the
 			// updates loop not running in between (held operations).
 			for j, m := 0, rapid.IntRange(2, 4).Draw(t, "burst_len"); j < m; j++ {
@@ -295,37 +328,64 @@ func Gen(t *rapid.T, tier string) any {
 				sc.Ops = append(sc.Ops, b)
 			}
 			continue
-		case k < 69:
+		case k < 60:
 			op = Op{Kind: "set_rules", Rules: genRules(t, false, 5)}
-		case k < 73:
+		case k < 64:
 			op = Op{Kind: "list_toggle", Allow: rapid.IntRange(0, 2).Draw(t, "tg_allow") == 0, ID: int64(rapid.IntRange(0, 2).Draw(t, "tg_idx")), On: rapid.Bool().Draw(t, "tg_on")}
-		case k < 77:
+		case k < 68:
 			op = Op{Kind: "list_refresh", Allow: rapid.IntRange(0, 2).Draw(t, "rf_allow") == 0, ID: int64(rapid.IntRange(0, 2).Draw(t, "rf_idx"))}
 			op.Rules = genRules(t, op.Allow, 5)
-		case k < 79:
+		case k < 72:
 			op = Op{Kind: "list_add", Allow: rapid.IntRange(0, 2).Draw(t, "add_allow") == 0, ID: nextID}
 			// An added list must contain at least one rule (the API rejects a
 			// list without rules, which is not this property's subject).
 			op.Rules = append([]string{"||" + rapid.SampledFrom(ruleDomains).Draw(t, "add_first") + "^"}, genRules(t, op.Allow, 4)...)
 			nextID++
-		case k < 81:
+		case k < 74:
 			op = Op{Kind: "list_remove", Allow: rapid.IntRange(0, 2).Draw(t, "rm_allow") == 0, ID: int64(rapid.IntRange(0, 2).Draw(t, "rm_idx"))}
-		case k < 85:
+		case k < 77:
 			op = Op{Kind: "mode"}
 			genMode(t, &op)
-		case k < 89:
+		case k < 80:
 			op = Op{Kind: "protection", On: rapid.Bool().Draw(t, "prot_on")}
 			if !op.On && rapid.Bool().Draw(t, "prot_timed") {
 				op.Ms = int64(rapid.SampledFrom([]int{1000, 30_000, 600_000}).Draw(t, "prot_ms"))
 			}
-		case k < 95:
+		case k < 85:
 			op = Op{Kind: "advance", Ms: int64(rapid.SampledFrom([]int{1, 999, 1000, 29_000, 31_000, 600_000, 3_600_000, 86_400_000}).Draw(t, "adv_ms"))}
-		case k < 97:
+		case k < 87:
 			op = Op{Kind: "filtering", On: rapid.Bool().Draw(t, "flt_on")}
-		default:
+		case k < 89:
 			op = Op{Kind: "services", Services: rapid.SliceOfNDistinct(rapid.SampledFrom(services), 0, 2, rapid.ID[string]).Draw(t, "new_services")}
 			w := genWeek(t)
 			op.Week = &w
+		case k < 92:
+			// The process is stopped and started again on the configuration
+			// and the data directory it has written itself.
+			op = Op{Kind: "restart"}
+		case k < 97:
+			// A storage fault on the file of one list in the data directory, and
+			// its end.  (The generator follows whether it has drawn a fault so
+			// that a heal is not wasted; it does not know whether the list
+			// exists.)
+			if faulty && rapid.IntRange(0, 2).Draw(t, "lf_heal") != 0 {
+				op = Op{Kind: "list_heal"}
+				faulty = false
+				break
+			}
+			op = Op{Kind: "list_fault", Allow: rapid.IntRange(0, 2).Draw(t, "lf_allow") == 0, ID: int64(rapid.IntRange(0, 2).Draw(t, "lf_idx")),
+				How: rapid.SampledFrom([]string{"loop", "loop", "dir", "dangling"}).Draw(t, "lf_how")}
+			faulty = true
+		default:
+			// A rule-changing admin call (any endpoint of the family), the
+			// updates loop and queries, concurrently.
+			op = Op{Kind: "par", Seed: rapid.Uint64().Draw(t, "par_seed"), Pct: rapid.SampledFrom([]int{20, 50, 80}).Draw(t, "par_pct")}
+			op.Sub = append(op.Sub, genRuleOp(t, &nextID))
+			for _, name := range rapid.SliceOfNDistinct(rapid.SampledFrom(queryNames), 1, 4, rapid.ID[string]).Draw(t, "par_names") {
+				q := genQuery(t)
+				q.Name = flipCase(t, name)
+				op.Sub = append(op.Sub, q)
+			}
 		}
 		if ruleChanging(op.Kind) {
 			op.Hold = rapid.IntRange(0, 4).Draw(t, "hold") == 0
@@ -357,32 +417,16 @@ type state struct {
 	services   []string
 	week       [7]Day
 	clients    map[string]Client // by IP
-	eng        *model.Engines
+	// cands are the rule configurations one of which is in force: exactly one
+	// (the configuration last accepted) except while a storage fault on a list
+	// file leaves it open which of the configurations applied since is (see
+	// c01_wide.go).
+	cands      []*cand
 	svcRules   map[string][]*rules.NetworkRule
 	cached     map[string]map[string]bool // name|qtype -> kinds of upstream replies seen before ("ok", "servfail"): the cache may serve them again
 	cacheOn    bool
 	aaaaOff    bool
 	unspec     int
-}
-
-func (s *state) rebuild() error {
-	if s.eng != nil {
-		s.eng.Close()
-	}
-	l := model.RuleLists{User: s.user}
-	for _, b := range s.block {
-		if b.enabled {
-			l.Block = append(l.Block, b.rules)
-		}
-	}
-	for _, a := range s.allow {
-		if a.enabled {
-			l.Allow = append(l.Allow, a.rules)
-		}
-	}
-	var err error
-	s.eng, err = model.NewEngines(l)
-	return err
 }
 
 func paused(w [7]Day, now time.Time) bool {
@@ -401,7 +445,7 @@ type expectation struct {
 	hostIPs     []netip.Addr
 }
 
-func (s *state) expect(name string, qtype uint16, addr netip.Addr, now time.Time) expectation {
+func (s *state) expectOne(cd *cand, name string, qtype uint16, addr netip.Addr, now time.Time) expectation {
 	host := strings.ToLower(strings.TrimSuffix(name, "."))
 	prot := s.protection
 	if !s.pausedTill.IsZero() {
@@ -411,7 +455,7 @@ func (s *state) expect(name string, qtype uint16, addr netip.Addr, now time.Time
 		return expectation{why: "protection off"}
 	}
 	cl, isClient := s.clients[addr.String()]
-	filt := s.filtering
+	filt := cd.filtering
 	clientName := ""
 	if isClient {
 		clientName = cl.Name
@@ -439,7 +483,7 @@ func (s *state) expect(name string, qtype uint16, addr netip.Addr, now time.Time
 		}
 		return expectation{why: "filtering off"}
 	}
-	m := s.eng.Check(host, qtype, addr, clientName)
+	m := cd.eng.Check(host, qtype, addr, clientName)
 	switch m.Verdict {
 	case model.Allowed:
 		return expectation{why: "allow rule " + m.Rule}
@@ -465,6 +509,24 @@ type runner struct {
 	// held is the number of rule-changing admin calls issued since the
 	// updates loop last ran (DelayedLoop scenarios).
 	held int
+
+	dir string
+	// base builds the node configuration of a start (fresh client objects).
+	base func() *dnsnode.Config
+	// snapF / snapD are what the configuration file holds: written whenever a
+	// component reports a modification, as home does.
+	snapF *filtering.Config
+	snapD *dnsforward.Config
+	// fault is the active storage fault, window is set from its injection until
+	// a configuration is known to have been applied again with all files
+	// intact.
+	fault  *listFault
+	window bool
+	// acceptedKey is the rule text of the configuration handled last.
+	acceptedKey string
+	// abandon: a concurrent phase ended in a deadlock; the parked tasks hold the
+	// node's locks.
+	abandon bool
 }
 
 // ruleChanging says whether an operation of this kind makes the filtering
@@ -491,7 +553,7 @@ func (r *runner) settle() error {
 	}
 	r.held = 0
 	kernel.Wait()
-	if err := r.st.rebuild(); err != nil {
+	if err := r.install(); err != nil {
 		return err
 	}
 	r.c.Fault("live_rule_change")
@@ -520,7 +582,10 @@ func weekJSON(w [7]Day) map[string]any {
 	return out
 }
 
-func (r *runner) api(method, path string, body any, wantOK bool) error {
+// api calls an admin handler.  A status other than 200 is harness trouble,
+// except for list operations while a storage fault is in doubt: there the
+// answer of the API says whether the operation was accepted (applied=false).
+func (r *runner) api(method, path string, body any, mayRefuse bool) (applied bool, resp []byte, err error) {
 	var b []byte
 	if body != nil {
 		b, _ = json.Marshal(body)
@@ -528,15 +593,19 @@ func (r *runner) api(method, path string, body any, wantOK bool) error {
 	code, resp, err := r.n.Mux.Do(method, path, b)
 	if err != nil {
 		if hp, ok := err.(*env.HandlerPanic); ok {
-			return kernel.Violationf("api-panic", "%v", hp)
+			return false, nil, kernel.Violationf("api-panic", "%v", hp)
 		}
-		return err
-	}
-	if wantOK && code != http.StatusOK {
-		return fmt.Errorf("harness: %s %s %s -> %d %s", method, path, b, code, resp)
+		return false, nil, err
 	}
 	r.c.Eventf("api %s %s -> %d", method, path, code)
-	return nil
+	if code != http.StatusOK {
+		if mayRefuse && r.window {
+			r.c.Probe("api_refused_under_fault")
+			return false, resp, nil
+		}
+		return false, resp, fmt.Errorf("harness: %s %s %s -> %d %s", method, path, b, code, resp)
+	}
+	return true, resp, nil
 }
 
 func answerKey(rr dns.RR) string {
@@ -745,6 +814,12 @@ func (r *runner) query(op Op) error {
 	rep := r.n.Do(q)
 	kernel.Wait()
 	r.next = env.UpOK
+	return r.judge(op, rep, ex)
+}
+
+// judge compares what one query was answered with what the reference model
+// expects.
+func (r *runner) judge(op Op, rep *dnsnode.Reply, ex expectation) error {
 	if rep.WireErr != nil {
 		return kernel.Violationf("malformed-reply", "%s %s over %s: %v", op.Name, dns.Type(op.Qtype), op.Proto, rep.WireErr)
 	}
@@ -760,6 +835,12 @@ func (r *runner) query(op Op) error {
 			return kernel.Violationf("aaaa-disabled", "%s AAAA with AAAA disabled: up=%d reply=%v", op.Name, len(rep.Exchanges), rep.Msg)
 		}
 		return nil
+	}
+	if len(r.st.cands) > 1 {
+		r.c.Probe("query_in_doubt_window")
+		if ex.blocked {
+			r.c.Probe("doubt_all_agree_blocked")
+		}
 	}
 	switch {
 	case ex.unspecified:
@@ -808,8 +889,7 @@ func (r *runner) lists(allow bool) *[]*mlist {
 }
 
 func (r *runner) apply(op Op) error {
-	st := r.st
-	if r.held > 0 && (op.Kind == "query" || op.Kind == "advance") {
+	if r.held > 0 && (op.Kind == "query" || op.Kind == "advance" || op.Kind == "par") {
 		// The loop gets to run at the latest now: queries are judged against
 		// the last accepted configuration.
 		if err := r.settle(); err != nil {
@@ -819,24 +899,62 @@ func (r *runner) apply(op Op) error {
 	switch op.Kind {
 	case "query":
 		return r.query(op)
+	case "restart":
+		return r.restart()
+	case "list_fault":
+		return r.injectFault(op)
+	case "list_heal":
+		return r.heal()
+	case "par":
+		return r.par(op)
+	}
+	skipped, err := r.admin(op)
+	if err != nil || skipped {
+		return err
+	}
+	r.observeFault()
+	if !ruleChanging(op.Kind) {
+		kernel.Wait()
+		r.observeFault()
+		return nil
+	}
+	r.held++
+	if r.sc.DelayedLoop && op.Hold {
+		// The admin call has returned; the updates loop has not run yet.
+		kernel.Wait()
+		r.c.Probe("held_rule_change")
+		return nil
+	}
+	return r.settle()
+}
+
+// admin performs one administrative operation (or clock advance) and brings
+// the reference model's configuration up to date.  It does not wait: it is
+// also run as a task of a concurrent phase.
+func (r *runner) admin(op Op) (skipped bool, err error) {
+	st := r.st
+	switch op.Kind {
 	case "set_rules":
-		if err := r.api("POST", "/control/filtering/set_rules", map[string]any{"rules": op.Rules}, true); err != nil {
-			return err
+		if _, _, err = r.api("POST", "/control/filtering/set_rules", map[string]any{"rules": op.Rules}, false); err != nil {
+			return false, err
 		}
 		st.user = op.Rules
 	case "list_toggle", "list_refresh", "list_remove":
 		ls := r.lists(op.Allow)
 		if int(op.ID) >= len(*ls) {
 			r.c.Probe("op_skipped_no_list")
-			return nil
+			return true, nil
 		}
 		l := (*ls)[op.ID]
+		var applied bool
 		switch op.Kind {
 		case "list_toggle":
-			if err := r.api("POST", "/control/filtering/set_url", map[string]any{"url": l.url, "whitelist": op.Allow, "data": map[string]any{"enabled": op.On, "name": "l", "url": l.url}}, true); err != nil {
-				return err
+			if applied, _, err = r.api("POST", "/control/filtering/set_url", map[string]any{"url": l.url, "whitelist": op.Allow, "data": map[string]any{"enabled": op.On, "name": "l", "url": l.url}}, true); err != nil {
+				return false, err
 			}
-			l.enabled = op.On
+			if applied {
+				l.enabled = op.On
+			}
 		case "list_refresh":
 			// A forced refresh updates enabled lists only; the server's content
 			// of a disabled list is left alone so that server content and the
@@ -845,42 +963,59 @@ func (r *runner) apply(op Op) error {
 			if l.enabled {
 				r.ls.Set(l.url, listText(op.Rules))
 			}
-			if err := r.api("POST", "/control/filtering/refresh", map[string]any{"whitelist": op.Allow}, true); err != nil {
-				return err
+			if applied, _, err = r.api("POST", "/control/filtering/refresh", map[string]any{"whitelist": op.Allow}, true); err != nil {
+				return false, err
 			}
-			if l.enabled {
+			if applied && l.enabled && r.fault != nil && r.fault.list == l && !r.faultOverwritten() {
+				// The list's file could not be replaced (it is what the storage
+				// fault put there): the list keeps its content.
+				applied = false
+				r.c.Probe("refresh_failed_under_fault")
+			}
+			if l.enabled && !applied {
+				r.ls.Set(l.url, listText(l.rules))
+			}
+			if l.enabled && applied {
 				l.rules = op.Rules
 				r.c.Probe("list_content_refreshed")
 			}
 		case "list_remove":
-			if err := r.api("POST", "/control/filtering/remove_url", map[string]any{"url": l.url, "whitelist": op.Allow}, true); err != nil {
-				return err
+			if applied, _, err = r.api("POST", "/control/filtering/remove_url", map[string]any{"url": l.url, "whitelist": op.Allow}, true); err != nil {
+				return false, err
 			}
-			*ls = append((*ls)[:op.ID], (*ls)[op.ID+1:]...)
+			if applied {
+				*ls = append((*ls)[:op.ID], (*ls)[op.ID+1:]...)
+				if r.fault != nil && r.fault.list == l {
+					r.dropFault("list removed")
+				}
+			}
 		}
 	case "list_add":
 		url := listURL(op.ID, op.Allow)
 		r.ls.Set(url, listText(op.Rules))
-		if err := r.api("POST", "/control/filtering/add_url", map[string]any{"name": "added", "url": url, "whitelist": op.Allow}, true); err != nil {
-			return err
+		var applied bool
+		if applied, _, err = r.api("POST", "/control/filtering/add_url", map[string]any{"name": "added", "url": url, "whitelist": op.Allow}, true); err != nil {
+			return false, err
 		}
-		ls := r.lists(op.Allow)
-		*ls = append(*ls, &mlist{id: op.ID, url: url, enabled: true, rules: op.Rules})
+		if applied {
+			ls := r.lists(op.Allow)
+			*ls = append(*ls, &mlist{id: op.ID, url: url, enabled: true, rules: op.Rules})
+		}
 	case "mode":
 		body := map[string]any{"blocking_mode": op.Mode, "blocked_response_ttl": op.TTL}
 		if op.Mode == "custom_ip" {
 			body["blocking_ipv4"], body["blocking_ipv6"] = op.V4, op.V6
 		}
-		if err := r.api("POST", "/control/dns_config", body, true); err != nil {
-			return err
+		if _, _, err = r.api("POST", "/control/dns_config", body, false); err != nil {
+			return false, err
 		}
 		st.mode, st.ttl = op.Mode, op.TTL
 		if op.Mode == "custom_ip" {
 			st.v4, st.v6 = netip.MustParseAddr(op.V4), netip.MustParseAddr(op.V6)
 		}
 	case "protection":
-		if err := r.api("POST", "/control/protection", map[string]any{"enabled": op.On, "duration": op.Ms}, true); err != nil {
-			return err
+		if _, _, err = r.api("POST", "/control/protection", map[string]any{"enabled": op.On, "duration": op.Ms}, false); err != nil {
+			return false, err
 		}
 		st.protection = op.On
 		st.pausedTill = time.Time{}
@@ -898,36 +1033,27 @@ func (r *runner) apply(op Op) error {
 			r.c.Probe("pause_deadline_crossed")
 		}
 	case "filtering":
-		if err := r.api("POST", "/control/filtering/config", map[string]any{"enabled": op.On, "interval": 24}, true); err != nil {
-			return err
+		if _, _, err = r.api("POST", "/control/filtering/config", map[string]any{"enabled": op.On, "interval": 24}, false); err != nil {
+			return false, err
 		}
 		st.filtering = op.On
 	case "services":
-		if err := r.api("PUT", "/control/blocked_services/update", map[string]any{"ids": op.Services, "schedule": weekJSON(*op.Week)}, true); err != nil {
-			return err
+		if _, _, err = r.api("PUT", "/control/blocked_services/update", map[string]any{"ids": op.Services, "schedule": weekJSON(*op.Week)}, false); err != nil {
+			return false, err
 		}
 		st.services, st.week = op.Services, *op.Week
 	default:
-		return fmt.Errorf("harness: unknown op %q", op.Kind)
+		return false, fmt.Errorf("harness: unknown op %q", op.Kind)
 	}
-	if !ruleChanging(op.Kind) {
-		kernel.Wait()
-		return nil
-	}
-	r.held++
-	if r.sc.DelayedLoop && op.Hold {
-		// The admin call has returned; the updates loop has not run yet.
-		kernel.Wait()
-		r.c.Probe("held_rule_change")
-		return nil
-	}
-	return r.settle()
+	return false, nil
 }
 
 // Run executes one scenario.
 func Run(t *testing.T, scAny any, c *kernel.Ctx) error {
 	sc := scAny.(*Scenario)
 	dnsnode.InitProcess()
+	sched.Init()
+	sched.SpawnAllow = []string{"enableProtectionAfterPause"}
 	dir, err := kernel.TempDir("c01")
 	if err != nil {
 		return err
@@ -936,14 +1062,30 @@ func Run(t *testing.T, scAny any, c *kernel.Ctx) error {
 	return kernel.Bubble(t, func() error {
 		// 2000-01-01 is a Saturday; place the start inside the week.
 		time.Sleep(time.Duration(sc.StartMin)*time.Minute + 24*time.Hour)
-		r := &runner{sc: sc, c: c, ls: env.NewListServer()}
+		r := &runner{sc: sc, c: c, ls: env.NewListServer(), dir: dir}
 		st := &state{mode: sc.Mode, ttl: sc.TTL, protection: sc.Protection, filtering: sc.Filtering, user: sc.User,
 			services: sc.Services, week: sc.Week, clients: map[string]Client{}, cached: map[string]map[string]bool{}, cacheOn: sc.CacheSize > 0, aaaaOff: sc.AAAADisabled,
 			v4: netip.MustParseAddr(sc.V4), v6: netip.MustParseAddr(sc.V6)}
 		r.st = st
 		r.up = &env.Upstream{Addr: "sim-upstream:53", Answer: env.DefaultAnswer, Timeout: 3 * time.Second, Slow: 300 * time.Millisecond, Latency: 5 * time.Millisecond,
 			NextFault: func(*dns.Msg) env.UpstreamFault { return r.next }, OnFault: func(k string) { c.Fault(k) }}
-		cfg := &dnsnode.Config{Dir: dir, ListServer: r.ls, Upstream: r.up, UpTimeout: 2 * time.Second, NoUpdatesLoop: sc.DelayedLoop}
+		// base is what every start of the node has in common.
+		r.base = func() *dnsnode.Config {
+			cfg := &dnsnode.Config{Dir: dir, ListServer: r.ls, Upstream: r.up, UpTimeout: 2 * time.Second, NoUpdatesLoop: sc.DelayedLoop, OnModified: r.onModified}
+			for _, cl := range sc.Clients {
+				p := &client.Persistent{Name: cl.Name, IPs: []netip.Addr{netip.MustParseAddr(cl.IP)}, UID: client.MustNewUID(),
+					UseOwnSettings: cl.OwnSettings, FilteringEnabled: cl.Filtering, UseOwnBlockedServices: cl.OwnServices}
+				p.BlockedServices = &filtering.BlockedServices{IDs: cl.Services}
+				if cl.ServicesPaused {
+					p.BlockedServices.Schedule, _ = weekly([7]Day{{0, 1440}, {0, 1440}, {0, 1440}, {0, 1440}, {0, 1440}, {0, 1440}, {0, 1440}})
+				} else {
+					p.BlockedServices.Schedule, _ = weekly([7]Day{})
+				}
+				cfg.InitialClients = append(cfg.InitialClients, p)
+			}
+			return cfg
+		}
+		cfg := r.base()
 		cfg.Filtering = filtering.Config{
 			BlockingMode: filtering.BlockingMode(sc.Mode), BlockedResponseTTL: sc.TTL,
 			ProtectionEnabled: sc.Protection, FilteringEnabled: sc.Filtering, UserRules: sc.User,
@@ -952,11 +1094,11 @@ func Run(t *testing.T, scAny any, c *kernel.Ctx) error {
 		if sc.Mode == "custom_ip" {
 			cfg.Filtering.BlockingIPv4, cfg.Filtering.BlockingIPv6 = st.v4, st.v6
 		}
-		sched, err := weekly(sc.Week)
+		wk, err := weekly(sc.Week)
 		if err != nil {
 			return err
 		}
-		cfg.Filtering.BlockedServices = &filtering.BlockedServices{IDs: sc.Services, Schedule: sched}
+		cfg.Filtering.BlockedServices = &filtering.BlockedServices{IDs: sc.Services, Schedule: wk}
 		for _, l := range sc.Block {
 			url := listURL(l.ID, false)
 			r.ls.Set(url, listText(l.Rules))
@@ -970,15 +1112,6 @@ func Run(t *testing.T, scAny any, c *kernel.Ctx) error {
 			st.allow = append(st.allow, &mlist{id: l.ID, url: url, enabled: l.Enabled, rules: l.Rules})
 		}
 		for _, cl := range sc.Clients {
-			p := &client.Persistent{Name: cl.Name, IPs: []netip.Addr{netip.MustParseAddr(cl.IP)}, UID: client.MustNewUID(),
-				UseOwnSettings: cl.OwnSettings, FilteringEnabled: cl.Filtering, UseOwnBlockedServices: cl.OwnServices}
-			p.BlockedServices = &filtering.BlockedServices{IDs: cl.Services}
-			if cl.ServicesPaused {
-				p.BlockedServices.Schedule, _ = weekly([7]Day{{0, 1440}, {0, 1440}, {0, 1440}, {0, 1440}, {0, 1440}, {0, 1440}, {0, 1440}})
-			} else {
-				p.BlockedServices.Schedule, _ = weekly([7]Day{})
-			}
-			cfg.InitialClients = append(cfg.InitialClients, p)
 			st.clients[cl.IP] = cl
 		}
 		cfg.DNS = dnsforward.Config{CacheSize: sc.CacheSize, AAAADisabled: sc.AAAADisabled, UpstreamMode: dnsforward.UpstreamModeLoadBalance}
@@ -986,15 +1119,20 @@ func Run(t *testing.T, scAny any, c *kernel.Ctx) error {
 		if err != nil {
 			return err
 		}
-		defer n.Close()
 		r.n = n
+		defer func() {
+			if !r.abandon {
+				r.n.Close()
+			}
+		}()
 		if err = r.loadServiceRules(); err != nil {
 			return err
 		}
-		if err = st.rebuild(); err != nil {
+		if err = st.setCands(st.conf()); err != nil {
 			return err
 		}
-		defer st.eng.Close()
+		r.acceptedKey = st.conf().key()
+		defer st.closeCands()
 		kernel.Wait()
 		for i, op := range sc.Ops {
 			c.Eventf("op %d %s", i, op.Kind)
@@ -1055,7 +1193,7 @@ var _ = sort.Strings
 var Prop = &kernel.Property{
 	ID:    "C01",
 	Level: "exploration",
-	Rule: "seeded histories (rapid): initial rule universe (||d^, |d^, *.d, @@, $important, $dnstype, $client, $denyallow, hosts-style lines) spread over custom rules, block lists and an allow list, blocked services with a weekly pause schedule, persistent clients with own settings; ops = queries (9 types, 6 transports, 4 source addresses, mixed case) interleaved with live changes through the real admin handlers (set_rules, list toggle / refresh with new content / add / remove, blocking mode, protection on/off/timed pause, global filtering flag, services+schedule) and clock advances; in half of the cases the filtering module's updates loop is scheduled by the harness, and bursts of 2..n rule-changing admin calls (every endpoint of the family) are issued back to back before the loop handles the first, queries being judged against the last accepted configuration once the loop has run; " +
+	Rule: "seeded histories (rapid): initial rule universe (||d^, |d^, *.d, @@, $important, $dnstype, $client, $denyallow, hosts-style lines) spread over custom rules, block lists and an allow list, blocked services with a weekly pause schedule, persistent clients with own settings; ops = queries (9 types, 6 transports, 4 source addresses, mixed case) interleaved with live changes through the real admin handlers (set_rules, list toggle / refresh with new content / add / remove, blocking mode, protection on/off/timed pause, global filtering flag, services+schedule) and clock advances; in half of the cases the filtering module's updates loop is scheduled by the harness, and bursts of 2..n rule-changing admin calls (every endpoint of the family) are issued back to back before the loop handles the first, queries being judged against the last accepted configuration once the loop has run; restarts of the node on the configuration (list ids included) and the data directory it wrote itself, at any point, followed by more list operations; storage faults on the file of any list in the data directory (replaced by a symlink loop, a directory or a dangling link; healed later or overwritten by the system's next download) between rule-changing operations, queries then being judged by what every configuration that may be in force agrees on; in the scheduler-driven half, phases in which a rule-changing admin call (every endpoint of the family), the updates loop and 1-4 queries run as concurrent tasks interleaved at lock boundaries by a seeded cooperative scheduler, each query judged by what the configurations before and after the call agree on; " +
 		"non-trivial = at least one query the reference model says must be blocked AND one that must be forwarded were both executed, and at least one live change or clock advance happened; distinct = distinct scenario digests",
 	Gen: Gen,
 	New: func() any { return &Scenario{} },
@@ -1065,7 +1203,7 @@ var Prop = &kernel.Property{
 	},
 	Real:        []string{"internal/filtering (DNSFilter, engines, blocked services, list refresh, HTTP handlers)", "internal/dnsforward (HandleBefore, request pipeline, blocking-mode responses, dns_config/protection handlers)", "dnsproxy request path (handleDNSRequest, Resolve, cache, respond*)", "internal/client.Storage", "urlfilter", "internal/schedule"},
 	Stub:        []string{"upstream resolver (logs every question; seeded faults)", "filter-list HTTP server (RoundTripper)", "client sockets (fake conns / response writers)", "query log and statistics (recorders)", "wall clock (synctest)"},
-	Assumptions: []string{"urlfilter's matching of one rule set against one host name is trusted (the reference model owns separate engines built from the scenario's rule text)", "blocked-services rule table is read through the real API and trusted as data", "with filtering off for a client the statement does not say whether blocked services still apply: only coherence is asserted there", "with the DNS cache on, a repeated allowed query may legitimately be served without a new upstream exchange"},
-	FaultKinds:  []string{"upstream_error", "upstream_timeout", "upstream_servfail", "upstream_slow", "live_rule_change", "clock_advance", "protection_pause", "updates_loop_delayed"},
-	ProbeNames:  []string{"blocked_query", "forwarded_query", "blocked_by_service", "blocked_by_hosts_rule", "allowed_by_rule", "protection_off_query", "filtering_off_query", "pause_deadline_crossed", "unspecified_case", "aaaa_disabled_query", "op_skipped_no_list", "list_content_refreshed", "served_from_cache", "held_rule_change", "burst_settled"},
+	Assumptions: []string{"urlfilter's matching of one rule set against one host name is trusted (the reference model owns separate engines built from the scenario's rule text)", "blocked-services rule table is read through the real API and trusted as data", "with filtering off for a client the statement does not say whether blocked services still apply: only coherence is asserted there", "with the DNS cache on, a repeated allowed query may legitimately be served without a new upstream exchange", "while the file of a list cannot be read, and during an overlapping rule change, the statement does not say which of the configurations accepted so far is in force: only what all of them (with and without the unreadable list) agree on is asserted"},
+	FaultKinds:  []string{"upstream_error", "upstream_timeout", "upstream_servfail", "upstream_slow", "live_rule_change", "clock_advance", "protection_pause", "updates_loop_delayed", "restart", "list_file_fault", "concurrent_rule_change"},
+	ProbeNames:  []string{"blocked_query", "forwarded_query", "blocked_by_service", "blocked_by_hosts_rule", "allowed_by_rule", "protection_off_query", "filtering_off_query", "pause_deadline_crossed", "unspecified_case", "aaaa_disabled_query", "op_skipped_no_list", "list_content_refreshed", "served_from_cache", "held_rule_change", "burst_settled", "restart_with_added_lists", "restart_under_fault", "fault_on_enabled_list", "fault_healed", "fault_overwritten", "api_refused_under_fault", "refresh_failed_under_fault", "query_in_doubt_window", "doubt_all_agree_blocked", "doubt_window_closed", "par_query", "par_query_must_be_blocked", "sched_steps", "sched_switches", "op_skipped_fault_active", "op_skipped_no_fault", "op_skipped_no_file", "op_skipped_no_scheduler"},
 }
